@@ -449,6 +449,9 @@ func (p *sparser) primary() *SX {
 		case "nil":
 			return &SX{Op: "nil"}
 		case "old":
+			if !p.isOp("(") {
+				return &SX{Op: "ident", Name: "old"} // a Go variable that happens to be called old
+			}
 			p.expect("(")
 			e := p.expr()
 			p.expect(")")
